@@ -6,7 +6,7 @@ props = [json.loads(l) for l in open(os.path.join(V, "properties.jsonl"))]
 
 # id -> (level text, level note, technique, design_ref)
 CLAIMED = {
- "C16": ("Lean 4 theorems over the SpanManager model (round trip on both encodings for any number/size of contexts, stability under later registrations, idempotence, accepted registrations are in range), tied to span.rs by a differential run of registration scripts with lengths to 2^40; diagnostics of failing programs (spans inside the file, file:line:col rendering) are checked on the implementation and the CLI only (sourceannot rendering is outside the model).",
+ "C16": ("Lean 4 theorems over the SpanManager model (round trip on both encodings for any number/size of contexts, stability under later registrations, idempotence, accepted registrations are in range), the --max-trace cropping arithmetic (slices in range, disjoint, exactly max-trace items for every size) and line/column bounds; tied to span.rs by a differential run of registration scripts with lengths to 2^40. Every span of every error and stack-trace entry of generated failing programs (lexical, syntactic, static, run-time, in imported files, multi-byte/CRLF/tab lines) is checked to lie inside its file, and the real CLI report (plain and coloured, all crop sizes) must exit 1 and name file:line:col of a span of the error; sourceannot's rendering itself is outside the model (partial).",
          "Lean kernel + propext/Classical.choice/Quot.sound; model hand-written, tie = differential scripts + direct oracle; u64 arithmetic modelled in Nat (sum of lengths < 2^63); binary_search_by_key by contract.",
          "Lean 4 proof (invariant over API operation sequences) + model/implementation correspondence", "DESIGN.md §5 C16"),
 }
@@ -26,6 +26,15 @@ CLAIMED.update({
  "C08": ("Lean 4 theorems: the equality and ordering state machines of the evaluator (explicit state/value/bool/ordering stacks, early exits) refine the declarative structural equality and lexicographic comparison with balanced stacks; on the specifications: reflexivity, symmetry, transitivity, != is the negation, == iff same JSON value, compare swap/transitivity/trichotomy, derived <= >= __compare __compare_array, unordered kinds are errors, UTF-8 byte order = code-point order; tied to eval/mod.rs by pairs/triples of generated values through all nine operations on implementation and model, with Python comparison of decoded values as independent oracle.",
          "Lean kernel + standard axioms; model numbers are integers (fractions checked on the implementation only); compared objects have no asserts/self/super; a thunk is a value or a failure.",
          "Lean 4 proof (machine refinement + order laws) + correspondence + Python reference oracle", "DESIGN.md §5 C08"),
+ "C05": ("Lean 4 theorems over the manifestation model: the JSON escaper emits only RFC 8259 string characters and is inverted by the JSON string lexer, the escape table extracted from manifest.rs on every run covers all control characters and equals the model, parseJson(manifest fmt v) = v for every whitespace-format (default output, toString, minified, manifestJson(Ex)) and every value with valid number tokens and distinct keys, emitted keys are the visible fields strictly sorted, TOML bare-key safety; YAML plain-key safety partial (the full YAML-1.2 statement is proved false with witness key 1e3, recorded). Tied to manifest.rs/parse_json.rs byte-for-byte through implementation and model, with Python json (strict), ast.literal_eval, tomllib and PyYAML/std.parseYaml as independent decoders.",
+         "Lean kernel + standard axioms; f64 Display/parse are opaque number tokens (validated, not proved); TOML table writer and YAML emitter checked by oracle only.",
+         "Lean 4 proof (round trip by structural induction, decide over extracted table) + correspondence + foreign-parser oracles", "DESIGN.md §5 C05"),
+ "C14": ("Lean 4 theorems over a literal model of the lexer: tokens tile the input up to an EOF token, a failure is one error with a span inside the input, no unwrap/slice site is reachable and fuel never runs out, dropping trivia commutes with lexing, UTF-8 continuation decoding equals one step of lossy decoding (maximal subpart rule), string/verbatim/escape/surrogate values, number tokens denote the literal's exact rational, text-block stripping (partial: CRLF forms and the acceptance direction open). Tied to lexer/mod.rs by ~80k byte strings per quick run (operator clusters exhaustively, corpus mutations, invalid UTF-8 classes) with tokens, payloads and spans compared, plus independent Python oracles for tiling, lossy decoding, escapes and number values.",
+         "Lean kernel + standard axioms; model hand-written statement by statement; C14_textblock_strip_full and C14_string_value_full kept as unproved defs.",
+         "Lean 4 proof (invariants over the cursor, structural induction) + correspondence + Python reference oracles", "DESIGN.md §5 C14"),
+ "C17": ("Lean 4 theorems over a literal model of the sort/set state machines, for every length, every threshold >= 1 and every lawful key order: sort is a stable sorted permutation (hence unique and threshold-independent), uniq/set specifications, union/intersection/difference/membership by key on strictly sorted inputs with the tie side, binary search total and correct, first minimal/maximal element. Tied to stdlib.rs by arrays of every length 0..200 with many duplicates (threshold extracted from the source) through implementation and model and by Python's stable sort and set definitions as independent oracle.",
+         "Lean kernel + standard axioms; keys are integers in the model driver (theorems are over an abstract lawful order); comparison machine is C08's business.",
+         "Lean 4 proof + correspondence + Python reference oracle", "DESIGN.md §5 C17"),
 })
 NOT_YET = "check not built yet in this round (no machinery committed for it)"
 
